@@ -11,7 +11,7 @@ C == Cases[tid]
 SetOf(q) == {q[k] : k \in 1..Len(q)}
 TInit == /\ tid \in 1..Len(Cases) /\ l = 1 /\ verdict = "ok"
          /\ pending = Cases[tid].pending /\ works = {} /\ registered = {} /\ armed = "none" /\ advwants = "go"
-         /\ alive = TRUE /\ progress = 0 /\ finished = {} /\ vanished = FALSE
+         /\ alive = TRUE /\ progress = 0 /\ finished = {} /\ vanished = FALSE /\ advmask = "r" /\ regmask = "r"
 St == C.steps[l]
 ObsWhy(o) ==
     IF o.alive # alive' THEN (IF alive' THEN "C05 the executor loop died (" \o o.err \o ") where the isolation property demands it survives: step " \o St.act \o " " \o St.site
@@ -25,6 +25,7 @@ ObsWhy(o) ==
 TNext == /\ verdict = "ok" /\ l <= Len(C.steps)
          /\ CASE St.act = "Arm" -> Arm(St.site)
               [] St.act = "WantTeardown" -> WantTeardown
+              [] St.act = "WantWrite" -> WantWrite
               [] St.act = "Vanish" -> Vanish
               [] St.act = "Tick" -> Tick
               [] St.act = "Reap" -> Reap
